@@ -12,7 +12,7 @@
    The theorems that do not mention W hold for every world (any tables, any class hierarchy). *)
 From Coq Require Import List String ZArith Bool Arith.
 Import ListNotations.
-Require Import C15.Model C15.Proofs C15.Bodies C15.gen.Dispatch C15.ProofsW.
+Require Import C15.Model C15.Proofs C15.Bodies C15.Order C15.gen.Dispatch C15.ProofsW.
 Open Scope string_scope.
 
 (* ------------------------------------------------------------------------------------------ *)
@@ -70,6 +70,46 @@ Theorem C15_dispatch_most_derived :
   exists pre post, mro w cls = (pre ++ d :: post)%list /\ own w d m = Some k /\
                    forall d', In d' pre -> own w d' m = None.
 Proof. exact dispatch_most_derived_gen. Qed.
+
+(* (every well-formed world whose subclass relation is a partial order; ANY argument list, by induction over it)
+   torch consults the most specific class first: the class c whose __torch_function__ decides has no strict subclass
+   among the operator arguments -- so getattr(c, name) finds the most derived override available among them *)
+Theorem C15_most_specific_class_handles :
+  forall (w : world), world_wf w = true -> po_ok w = true ->
+  forall f args c, first_op (overloaded w args) = Some c ->
+  dispatch w f args = torch_function w c f (map snd (overloaded w args)) args /\
+  forall d, In (KOp d) args -> ~ (subclassb w d c = true /\ d <> c).
+Proof.
+  intros w Hwf Hpo f args c Hf. split.
+  - now apply dispatch_first_op.
+  - exact (handler_class_minimal w (po_trans w Hwf Hpo) (po_anti w Hwf Hpo) args c Hf).
+Qed.
+(* ... and W is such a world *)
+Theorem C15_subclass_partial_order : po_ok W = true.
+Proof. exact W_po_ok. Qed.
+Example C15_most_specific_example :
+  first_op (overloaded W [KOp "TriangularLinearOperator"; KTensor; KOp "DiagLinearOperator"]) = Some "DiagLinearOperator".
+Proof. vm_compute. reflexivity. Qed.
+
+(* (every world) a subclass -- e.g. ANY user-defined one -- that puts none of the registered method names into its
+   own __dict__ is dispatched exactly like its parent class: same function objects, same argument order *)
+Theorem C15_subclass_inherits_dispatch :
+  forall (w : world) c c' f types args,
+  mro w c' = c' :: mro w c ->
+  (forall t m, lookup f (table w t) = Some m -> own w c' m = None) ->
+  (forall a, nth_error args (tf_test_arg (w_tf w)) = Some a -> isinstance w a c' = isinstance w a c) ->
+  torch_function w c' f types args = torch_function w c f types args.
+Proof. exact torch_function_inherits. Qed.
+
+(* the hypotheses are satisfiable: the harness's minimal user subclass and a Tensor first argument *)
+Example C15_subclass_inherits_example :
+  mro W "UserMinimal" = "UserMinimal" :: mro W "LinearOperator" /\
+  (forall t m, lookup "torch.sub" (table W t) = Some m -> own W "UserMinimal" m = None) /\
+  isinstance W KTensor "UserMinimal" = isinstance W KTensor "LinearOperator".
+Proof.
+  split; [vm_compute; reflexivity|]. split; [|reflexivity].
+  intros [] m H; vm_compute in H; inversion H; subst; vm_compute; reflexivity.
+Qed.
 
 (* ------------------------------------------------------------------------------------------ *)
 (** * dispatch_semantics: the method that runs computes the expected operation, operands in the right
